@@ -181,7 +181,7 @@ func genOp(t *rapid.T) kit.Cmd {
 		n := rapid.IntRange(0, 5).Draw(t, "arity")
 		var args []string
 		for i := 0; i < n; i++ {
-			args = append(args, gen.Pick(t, "aa", "a", "A", "1", "x"))
+			args = append(args, gen.Pick(t, "aa", "a", "A", "1000", "x"))
 		}
 		return c(name, args...)
 	}
